@@ -127,6 +127,14 @@ def build_go():
         raise BuildError("go build gotables", out)
 
 
+def build_ref_gomod():
+    """golang.org/x/mod/semver, the Go ecosystem's reference tool, as build/refgomod (same line protocol as
+    implrun). Returns False when the module is not in the local module cache (the comparison is then skipped)."""
+    src = os.path.join(VERIF, "harness/goref")
+    rc, out = sh(["go", "build", "-o", os.path.join(BUILD, "refgomod"), "."], cwd=src, env=GOENV, timeout=600)
+    return rc == 0
+
+
 def regen_tables():
     os.makedirs(os.path.join(COQ, "Gen"), exist_ok=True)
     rc, out = sh([os.path.join(BUILD, "gotables"), REPO, os.path.join(COQ, "Gen")], timeout=120)
